@@ -590,6 +590,11 @@ let run_case (line : string) =
                     f_color = List.mem (A "color") feat_l } in
        let mode = match find_field "mode" fields with Some m -> m | None -> [A "parse"] in
        (match mode with
+        | [A "parse"] when List.exists (fun w -> marker_rev w <> None) argv ->
+          (* a completion marker on the line: the evaluator of the autocomplete build (Model/CompEval.v) *)
+          (match c_run_inner feat env (coptions_of_sexp opts) name argv None with
+           | OutCompletion t -> Printf.printf "%s\tCOMP\t%s\n" id (hex_of_bytes t)
+           | other -> print_outcome id other)
         | [A "parse"] ->
           let (r, s') = run_inner_state feat env o name argv in
           (match r with
